@@ -910,9 +910,13 @@ def _find_overload(fn, **kwargs):
         and inspect.isfunction(dispatch)
         and isinstance(fr.f_locals, ovld_cls_dict)
     ):
-        # A plain earlier definition in an overloading class body: the
-        # namespace merges it with this one
+        # A plain earlier definition in an overloading class body: it becomes
+        # the overload that this and the later definitions are added to (as
+        # own definitions, not as a mixin that inherited methods could beat)
+        plain = dispatch
         dispatch = Ovld(**kwargs)
+        dispatch.register(plain)
+        dict.__setitem__(fr.f_locals, fn.__name__, dispatch.dispatch)
     elif not is_ovld(dispatch):  # pragma: no cover
         raise TypeError("@ovld requires Ovld instance")
     elif kwargs:  # pragma: no cover
